@@ -1,60 +1,39 @@
-(* C06 - concrete programs on which the faithful Mech model departs from the Spec (known findings) *)
+(* C06 - the programs that refuted the property on the code before the fixes (Pinned.v), run on the
+   current Mech: transcript as the Spec demands, stacks balanced. *)
 From Coq Require Import List Arith Bool.
 Import ListNotations.
-From Cb Require Import C06.Model.
+From Cb Require Import C06.Model C06.Pinned.
 
-Fixpoint blk (l : list stmt) : block := match l with [] => BNil | s :: r => BCons s (blk r) end.
+Lemma w11_now : mrun 20 w11 = Some (true, mk [] [[]] 1
+  [ECtor 100; EMark 1; ECtor 1; EDtor 1; EMark 2; EDtor 100]).
+Proof. vm_compute; reflexivity. Qed.
 
-(* #11: int f1(){ R o1(1); return 0; }  main: R o100(100); mark 1; f1(); mark 2 *)
-Definition w11 : prog := [blk [SObj 100; SMark 1; SCall 1; SMark 2]; blk [SObj 1; SRet]].
-(* #43: main: { R o1(1); defer 1; defer 2; R o3(3); } *)
-Definition w43 : prog := [blk [SBlock (blk [SObj 1; SDefer 1; SDefer 2; SObj 3])]].
-(* #44: f1: for(i<3){ if (i==1) { return; } }   main: defer 1; { defer 2; f1(); mark 3 } mark 4 *)
-Definition w44 : prog :=
-  [blk [SDefer 1; SBlock (blk [SDefer 2; SCall 1; SMark 3]); SMark 4];
-   blk [SLoop 3 (blk [SIf (CIter 1) (blk [SRet]) BNil])]].
-(* #11 twice: main: R o1(1); f1(); f1(); R o2(2)  - o2 is never destroyed *)
-Definition wnever : prog := [blk [SObj 1; SCall 1; SCall 1; SObj 2]; blk [SObj 9; SRet]].
-(* return in main after an object: transcript as demanded, destructor stack one level short *)
-Definition wmain : prog := [blk [SObj 1; SRet]].
-(* a conforming program with every construct *)
-Definition wsafe : prog :=
-  [blk [SObj 1; SLoop 3 (blk [SDefer 2; SIf (CIter 1) (blk [SBrk]) (blk [SMark 3]); SCall 1]); SCall 2; SMark 4];
-   blk [SObj 5; SBlock (blk [SDefer 6; SMark 7])];
-   blk [SDefer 8; SIf CTrue (blk [SRet]) BNil; SMark 9]].
+Lemma w43_now : mrun 20 w43 = Some (true, mk [] [[]] 1
+  [ECtor 1; EReg 1; EReg 2; ECtor 3; EDefer 2; EDefer 1; EDtor 3; EDtor 1]).
+Proof. vm_compute; reflexivity. Qed.
 
-Lemma w11_run :
-  mrun 20 w11 = Some (true, mk [] [] 1
-     [ECtor 100; EMark 1; ECtor 1; EDtor 1; EDtor 100; EImb 1 1 1 2 1 2 2; EMark 2]) /\
-  srun 20 w11 = Some (true, [ECtor 100; EMark 1; ECtor 1; EDtor 1; EMark 2; EDtor 100]).
-Proof. split; vm_compute; reflexivity. Qed.
+Lemma w44_now : mrun 30 w44 = Some (true, mk [] [[]] 1
+  [EReg 1; EReg 2; EMark 3; EDefer 2; EMark 4; EDefer 1]).
+Proof. vm_compute; reflexivity. Qed.
 
-Lemma w43_run :
-  mrun 20 w43 = Some (true, mk [] [[]] 1
-     [ECtor 1; EReg 1; EReg 2; ECtor 3; EDtor 3; EDtor 1; EDefer 2; EDefer 1]) /\
-  srun 20 w43 = Some (true, [ECtor 1; EReg 1; EReg 2; ECtor 3; EDefer 2; EDefer 1; EDtor 3; EDtor 1]).
-Proof. split; vm_compute; reflexivity. Qed.
+Lemma wnever_now : mrun 20 wnever = Some (true, mk [] [[]] 1
+  [ECtor 1; ECtor 9; EDtor 9; ECtor 9; EDtor 9; ECtor 2; EDtor 2; EDtor 1]).
+Proof. vm_compute; reflexivity. Qed.
 
-Lemma w44_run :
-  mrun 30 w44 = Some (true, mk [[1]] [[]] 1
-     [EReg 1; EReg 2; EImb 1 2 3 3 3 2 2; EMark 3; EMark 4; EDefer 2]) /\
-  srun 30 w44 = Some (true, [EReg 1; EReg 2; EMark 3; EDefer 2; EMark 4; EDefer 1]).
-Proof. split; vm_compute; reflexivity. Qed.
+Lemma wmain_now : mrun 20 wmain = Some (true, mk [] [[]] 1 [ECtor 1; EDtor 1]).
+Proof. vm_compute; reflexivity. Qed.
 
-Lemma wnever_run :
-  mrun 20 wnever = Some (true, mk [] [] 1
-     [ECtor 1; ECtor 9; EDtor 9; EDtor 1; EImb 1 1 1 2 1 2 2; ECtor 9; EDtor 9; EImb 1 1 1 1 0 2 2; ECtor 2]) /\
-  srun 20 wnever = Some (true, [ECtor 1; ECtor 9; EDtor 9; ECtor 9; EDtor 9; ECtor 2; EDtor 2; EDtor 1]).
-Proof. split; vm_compute; reflexivity. Qed.
+(* every construct, including the three formerly defective shapes: a scope with objects and defers,
+   a return after an object, a return from inside a loop *)
+Definition wall : prog :=
+  [blk [SObj 1; SDefer 2; SLoop 3 (blk [SDefer 3; SObj 4; SIf (CIter 1) (blk [SBrk]) (blk [SMark 5]); SCall 1]); SCall 2; SMark 6];
+   blk [SObj 7; SBlock (blk [SDefer 8; SObj 9; SRet]); SMark 10];
+   blk [SDefer 11; SLoop 2 (blk [SObj 12; SIf (CIter 0) (blk [SDefer 13; SRet]) BNil]); SMark 14]].
 
-Lemma wmain_run :
-  mrun 20 wmain = Some (true, mk [] [] 1 [ECtor 1; EDtor 1]) /\
-  srun 20 wmain = Some (true, [ECtor 1; EDtor 1]).
-Proof. split; vm_compute; reflexivity. Qed.
-
-Lemma wsafe_run :
-  safe_prog wsafe = true /\
-  mrun 40 wsafe = Some (true, mk [] [[]] 1
-    [ECtor 1; EReg 2; EMark 3; ECtor 5; EReg 6; EMark 7; EDefer 6; EDtor 5; EDefer 2;
-     EReg 2; EDefer 2; EReg 8; EDefer 8; EMark 4; EDtor 1]).
-Proof. split; vm_compute; reflexivity. Qed.
+Lemma wall_run : mrun 40 wall = Some (true, mk [] [[]] 1
+  [ECtor 1; EReg 2;
+   EReg 3; ECtor 4; EMark 5; ECtor 7; EReg 8; ECtor 9; EDefer 8; EDtor 9; EDtor 7; EDefer 3; EDtor 4;
+   EReg 3; ECtor 4; EDefer 3; EDtor 4;
+   EReg 11; ECtor 12; EReg 13; EDefer 13; EDtor 12; EDefer 11;
+   EMark 6; EDefer 2; EDtor 1]).
+Proof. vm_compute; reflexivity. Qed.
